@@ -30,6 +30,7 @@ let show_etok = function
 let dispatch (t : string list) : string =
   match t with
   | "expr" :: b :: rest -> Cases.run_expr (backend_of b) (Sexp.parse (String.concat " " rest))
+  | "stmtfull" :: b :: rest -> Cases.run_stmt_full (backend_of b) (Sexp.parse (String.concat " " rest))
   | "exprfull" :: b :: rest -> Cases.run_expr_full (backend_of b) (Sexp.parse (String.concat " " rest))
   | "inject" :: b :: rest -> Cases.run_inject (backend_of b) (Sexp.parse (String.concat " " rest))
   | "entry" :: b :: rest -> Cases.run_entry (backend_of b) (Sexp.parse (String.concat " " rest))
